@@ -51,13 +51,18 @@ def _run(args, cwd=None):
 
 def search(pid, routine, failure, rep):
     seed = int(os.environ.get("VERIF_SEED", "0") or 0) + 1
-    rc, hits = _run(["search", routine, str(seed)])
+    hits = []
+    for rt in (routine if isinstance(routine, list) else [routine]):
+        rc, hh = _run(["search", rt, str(seed)])
+        for h in hh:
+            h["routine"] = rt
+        hits += hh
     import units
     known_cases = units.PROPS.get(pid, {}).get("known_cases", [])
     hits = [h for h in hits if h.get("case") not in known_cases]
     if hits:
         h = hits[0]
-        h["replay_args"] = ["replay", routine, h["case"], h["input"]]
+        h["replay_args"] = ["replay", h["routine"], h["case"], h["input"]]
         return h
     return None
 
